@@ -140,6 +140,21 @@ def run_req(exe, req, key, timeout=240):
     return rc, res, err
 
 
+def run_embed(exe, req, timeout=240):
+    """one embedding request -> (exit status, {"embed": [...], "modified": [...]} or None, stderr)"""
+    env = dict(os.environ, GORACE="halt_on_error=0")
+    try:
+        p = subprocess.run([exe], input=json.dumps(req).encode(), stdout=subprocess.PIPE, stderr=subprocess.PIPE, env=env, timeout=timeout)
+    except subprocess.TimeoutExpired:
+        return 124, None, "timeout"
+    try:
+        doc = json.loads(p.stdout.decode("utf-8", "replace"))
+        doc["embed"], doc["modified"]
+    except (ValueError, KeyError):
+        doc = None
+    return p.returncode, doc, p.stderr.decode("utf-8", "replace")
+
+
 FU_MODULES = 128
 
 
@@ -293,7 +308,15 @@ def run(res):
             conc = run_req(obs, dict(fu, mode="firstuse-conc", dir=moddir), "firstuse")
             seq = run_req(obs, dict(fu, mode="firstuse-seq", dir=moddir), "firstuse")
             return conc, seq
+        # embedding rounds (harness/cmd/c09obs/embed.go): the lower-level route (parser + compiler.New/Compile with ONE shared
+        # names slice + vm.New + Run) behind ONE shared importer; one evaluation may be cancelled while it loads the module
+        em_trials = [{"rounds": (10 if quick else 30) + rng.below(6), "workers": rng.choice([2, 3, 4, 8, 16]), "seed": 1 + rng.below(1 << 30)}
+                     for _ in range(8 if quick else 80)]
+
+        def one_em(em):
+            return run_embed(obs, dict(em, mode="embed-conc", dir=moddir)), run_embed(obs, dict(em, mode="embed-seq", dir=moddir))
         with ThreadPoolExecutor(max_workers=6) as ex:
+            em_outs = list(ex.map(one_em, em_trials))
             outs = list(ex.map(one, trials))
             fu_outs = list(ex.map(one_fu, fu_trials))
             cf_outs = list(ex.map(one_cf, cf_trials))
@@ -447,6 +470,56 @@ def run(res):
             if rc not in (0, 66):
                 oracle_viol.append(dict(case, why="the first-use rounds exited with status %s" % rc, report=cerr[-800:]))
         stats["first_use"] = fstats
+        # ---- embedding rounds: every evaluation whose own context was not cancelled returns what its own globals make it,
+        # concurrently and in sequence; the host's shared inputs are as the host made them
+        estats = {"trials": len(em_trials), "rounds": 0, "evaluations": 0, "as_its_own_globals_make_it": 0,
+                  "rounds_with_an_evaluation_cancelled_during_the_shared_load": 0, "race_reports": 0}
+        for em, ((rc, cdoc, cerr), (src, sdoc, serr)) in zip(em_trials, em_outs):
+            case = {"stage": "dynamic-embed", "embed": em}
+            estats["rounds"] += em["rounds"]
+            evals += 2 * em["rounds"] * em["workers"]
+            stats["evaluations"] += 2 * em["rounds"] * em["workers"]
+            reports = parse_races(cerr, C.REPO)
+            stats["race_reports"] += len(reports)
+            estats["race_reports"] += len(reports)
+            ebad = False
+            for how, code, doc, err in (("one after the other", src, sdoc, serr), ("at the same time", rc, cdoc, cerr)):
+                if doc is None:
+                    if code == 124:
+                        continue            # a wall-clock bound: not an observation
+                    m0 = re.search(r"^(fatal error: |panic: )", err, re.M)
+                    txt = err[m0.start():m0.start() + 6000] if m0 else err[-3000:]
+                    oracle_viol.append(dict(case, why="the process running the embedding rounds (%s) died (exit %s): %s" % (
+                        how, code, (re.search(r"fatal error: [^\n]*", txt) or re.search(r"panic: [^\n]*", txt) or [txt[-200:]])[0]), report=txt[-1500:]))
+                    ebad = True
+                    continue
+                for r in doc["embed"]:
+                    estats["evaluations"] += 1
+                    nontrivial.add(("embed", r["route"], r["victim"], em["workers"]))
+                    if r["victim"]:
+                        estats["rounds_with_an_evaluation_cancelled_during_the_shared_load"] += 1
+                        ok = (r.get("error") == "context canceled") or (not r.get("error") and r.get("got") == r.get("want"))
+                    else:
+                        ok = not r.get("error") and r.get("got") == r.get("want")
+                    estats["as_its_own_globals_make_it"] += 1 if ok else 0
+                    if not ok and not ebad:
+                        ebad = True
+                        mates = [x for x in doc["embed"] if x["round"] == r["round"]]
+                        vic = [x["worker"] for x in mates if x["victim"]]
+                        oracle_viol.append(dict(case, script=r["script"], why="%d evaluations on separate VMs (own globals, own contexts) sharing one global-names slice and one importer, run %s "
+                                                "(round %d%s): evaluation %d (route %s, context %s) %s; its own globals make it %r" % (
+                                                    em["workers"], how, r["round"],
+                                                    (", evaluation %d cancelled while the importer loads the module for it" % vic[0]) if vic else "",
+                                                    r["worker"], r["route"], "cancelled by the host during the load" if r["victim"] else "never cancelled",
+                                                    ("failed with %r" % r["error"]) if r.get("error") else ("returned %r" % (r.get("got"),)), r.get("want"))))
+                if doc["modified"] and not ebad:
+                    ebad = True
+                    oracle_viol.append(dict(case, why="evaluations run %s changed an input the host shares between them and never writes: %s" % (how, doc["modified"][0][:600]),
+                                            script=doc["embed"][0]["script"]))
+            judge_reports(case, "embed", reports)
+            if rc not in (0, 66, 124) and cdoc is not None:
+                oracle_viol.append(dict(case, why="the embedding rounds exited with status %s" % rc, report=cerr[-800:]))
+        stats["embedding_rounds"] = estats
         if len(samples) < 6 and fu_trials:
             samples.append({"stage": "dynamic-firstuse", "firstuse": fu_trials[0], "routes": fstats["routes"]})
         # ---- evaluations with different configurations: each must see exactly its own (expectation from its own options)
@@ -508,7 +581,12 @@ def run(res):
 
     cov["evaluations"] = evals
     cov["distinct_nontrivial"] = len(nontrivial)
-    cov["rule"] = ("translator: %d packages, %d functions of the risor main module scanned; %d package-level variables are never written "
+    cov["rule"] = ("embedding rounds: the lower-level route (parser.Parse, compiler.New(WithGlobalNames)+Compile or compiler.Compile, vm.New(WithGlobals, WithImporter), Run) "
+                   "with ONE unsorted global-names slice and ONE importer (FSImporter over a hooked fs / LocalImporter) shared by 2-16 evaluations on separate VMs with own globals and "
+                   "contexts, all importing a module nobody imported before; in every second round one evaluation is cancelled by the host while the importer loads the module on "
+                   "its behalf and the others are arriving; every evaluation not cancelled must return what its own globals make it (concurrently and one after the other), and the "
+                   "host's shared inputs (names slice, module bytes, globals maps) must be as the host made them. "
+                   "translator: %d packages, %d functions of the risor main module scanned; %d package-level variables are never written "
                    "after init, %d locations are mutable at run time with %d access sites under %d locks (every ordered pair of sites "
                    "checked: by the kernel, by the extracted model and by an independent Python reading). dynamic: seeded trials of "
                    "2/4/8/16 simultaneous evaluations (own VM, own globals) in a -race build, programs drawn from %s (guarded stream) "
@@ -548,7 +626,7 @@ def run(res):
         res.known_finding("%d observations in the open class %s, e.g. %s" % (len(known_hits), KNOWN_ID, known_hits[0]["why"][:200]))
     dyn_viol = [v for v in oracle_viol if not v.get("static")]
     # an evaluation that returned something else than alone says more than the race reports of the same rounds: list those first
-    dyn_viol.sort(key=lambda v: 0 if v.get("stage") in ("dynamic-firstuse", "dynamic-config") and v.get("script") and "data race" not in v.get("why", "") else 1)
+    dyn_viol.sort(key=lambda v: 0 if v.get("stage") in ("dynamic-firstuse", "dynamic-config", "dynamic-embed") and v.get("script") and "data race" not in v.get("why", "") else 1)
     for v in dyn_viol[:10]:
         v.update({"property": PROP, "kind": "oracle-violation"})
         res.violation(v)
@@ -569,6 +647,28 @@ def run(res):
 
 def replay(data):
     print(json.dumps({k: v for k, v in data.items() if k != "report"}, indent=1)[:4000])
+    if data.get("embed"):
+        obs, err = C.go_build("c09obs", race=True)
+        if not obs:
+            print(err)
+            return 2
+        work = tempfile.mkdtemp(prefix="c09r-")
+        try:
+            for attempt, mode in enumerate(["embed-seq"] + ["embed-conc"] * 5):
+                rc, doc, err = run_embed(obs, dict(data["embed"], mode=mode, dir=work))
+                n = err.count("WARNING: DATA RACE")
+                bad = [r for r in (doc or {}).get("embed", []) if not ((not r.get("error") and r.get("got") == r.get("want")) or
+                                                                         (r["victim"] and r.get("error") == "context canceled"))]
+                print("attempt %d (%s): exit %s, %d race reports, %s evaluations not returning what their own globals make them, shared inputs modified: %s" % (
+                    attempt, mode, rc, n, len(bad) if doc is not None else "process died;", (doc or {}).get("modified", [])[:1]))
+                for r in bad[:3]:
+                    print("  round %d evaluation %d route %s victim %s: error %r got %r want %r" % (r["round"], r["worker"], r["route"], r["victim"], r.get("error"), r.get("got"), r.get("want")))
+                if n or bad or rc != 0 or (doc or {}).get("modified"):
+                    print(err[:3000])
+                    return 1
+        finally:
+            shutil.rmtree(work, ignore_errors=True)
+        return 0
     if not data.get("jobs") and not data.get("firstuse"):
         return 0
     if data.get("stage") == "dynamic-config":
